@@ -27,6 +27,7 @@ func main() {
 	repo := flag.String("repo", "/repo", "repository root")
 	rt := flag.String("rt", "/verif/rt", "verifrt sources")
 	out := flag.String("out", "", "output directory (overlay.json is written there)")
+	mapOrder := flag.String("maporder", "", "comma separated package patterns: instrument map iteration order in these programs and everything of the module they import (no sync/go rewriting)")
 	flag.Parse()
 	if *out == "" {
 		fmt.Fprintln(os.Stderr, "vinstr: -out required")
@@ -47,6 +48,19 @@ func main() {
 	}
 	var report []string
 	n := 0
+	if *mapOrder != "" {
+		rep, err := mapOrderOverlay(*repo, *out, strings.Split(*mapOrder, ","), replace)
+		if err != nil {
+			die(err)
+		}
+		os.MkdirAll(*out, 0o755)
+		b, _ := json.MarshalIndent(map[string]any{"Replace": replace}, "", " ")
+		if err := os.WriteFile(filepath.Join(*out, "overlay.json"), b, 0o644); err != nil {
+			die(err)
+		}
+		os.WriteFile(filepath.Join(*out, "report.txt"), []byte(strings.Join(rep, "\n")+"\n"), 0o644)
+		return
+	}
 	err = filepath.Walk(*repo, func(p string, info os.FileInfo, err error) error {
 		if err != nil {
 			return err
